@@ -150,7 +150,11 @@ def case_init_lattice(col, p):
     """the equilibrium density over the whole stated selection domain (not only the mild values of the program alphabet) at every factor c:
     phi_1D(nu*c, theta0/c, gamma/c, h) must not depend on c (the product gamma*nu and theta0*nu are what matter)"""
     import dadi
-    xx = space.grid(p['grid'], p['G'], p['seed'])
+    if p['grid'] == 'I':
+        # frequencies strictly inside (0,1) (e.g. sample frequencies i/n): the genic and neutral densities are defined there too
+        xx = np.linspace(0.04, 0.96, p['G'])
+    else:
+        xx = space.grid(p['grid'], p['G'], p['seed'])
     h = p['h']
     n = 0
     for nu, gamma in itertools.product(INIT_NUS, INIT_GAMMAS):
@@ -224,6 +228,7 @@ def run(ctx):
     for h in INIT_HS:
         for gk2, G2 in (('E', 8), ('U', 12)):
             cases.append({'kind': 'init_lattice', 'G': G2, 'grid': gk2, 'seed': seed, 'theta0': 1.7, 'h': h})
+    cases.append({'kind': 'init_lattice', 'G': 9, 'grid': 'I', 'seed': seed, 'theta0': 1.7, 'h': 0.5})
     # superposition
     Gd = {1: 7, 2: 5, 3: 4, 4: 3, 5: 3}
     for d in range(1, 6):
